@@ -35,6 +35,8 @@ type InstResult struct {
 	PathLimit bool
 	Err       string
 	Observe   []string
+	NDNames   []string
+	NDSorts   []string
 }
 
 // runInstance explores all paths of one instance.
@@ -54,6 +56,7 @@ func runInstance(ld *Loaded, sol *Solver, inst Instance, opt runOpts) (res InstR
 	}
 	q0, t0, tm0 := sol.Queries, sol.Trivial, sol.Time
 	work := [][]decision{nil}
+	ndSeen := map[string]bool{}
 	maxPaths := opt.maxPaths
 	if maxPaths == 0 {
 		maxPaths = 4000
@@ -71,6 +74,13 @@ func runInstance(ld *Loaded, sol *Solver, inst Instance, opt runOpts) (res InstR
 		ex.resetPath(prefix)
 		runPath(ex, fn)
 		work = append(work, ex.path.forks...)
+		for i, n := range ex.path.ndNames {
+			if !ndSeen[n] {
+				ndSeen[n] = true
+				res.NDNames = append(res.NDNames, n)
+				res.NDSorts = append(res.NDSorts, sortTag(ex.path.nondets[i].Sort))
+			}
+		}
 	}
 	res.Obls = h.obls
 	res.Paths = h.paths
@@ -140,6 +150,7 @@ type runOpts struct {
 	maxPaths  int
 	kfOpen    map[string]bool
 	concrete  map[string]string
+	collectND bool
 }
 
 func main() {
